@@ -240,6 +240,10 @@ func (dst *Rollout) ConvertFrom(src conversion.Hub) error {
 		if srcV1beta1.Spec.Strategy.Canary.TrafficRoutingRef != "" {
 			dst.Annotations[TrafficRoutingAnnotation] = srcV1beta1.Spec.Strategy.Canary.TrafficRoutingRef
 		}
+		if srcV1beta1.Spec.Strategy.Canary.TrafficRoutingRef == "" {
+			// the v1beta1 field is authoritative: drop an annotation left behind by an earlier v1alpha1 write
+			delete(dst.Annotations, TrafficRoutingAnnotation)
+		}
 		dst.Spec.Strategy.Canary.DisableGenerateCanaryService = srcV1beta1.Spec.Strategy.Canary.DisableGenerateCanaryService
 
 		// status
